@@ -150,6 +150,9 @@ def run_cpp(unit, ctx):
         norm_in = 0.0
         steps = 30 if ctx["tier"] == "quick" else 120
         for step in range(steps):
+            if gen.outside_domain(defn, x):
+                R.stats.inc("histories_cut_outside_domain")
+                break
             if rng.random() < 0.6 or not eb.sensors:
                 dt = md * rng.choice([1.0, 1.0, rng.uniform(0.01, 1.0)])
                 cmd = eb.pm_cmd(dt, x, P, {c: rng.gauss(0, 1) for c in eb.control})
@@ -246,6 +249,10 @@ def run_unit(unit, ctx):
         norm_in = 0.0
         completed = True
         for step in range(STEPS[ctx["tier"]]):
+            if gen.outside_domain(defn, monitors.vec_dict(st)):
+                R.stats.inc("histories_cut_outside_domain")
+                completed = False
+                break
             last["raised_on"] = None
             try:
                 if rng.random() < 0.6 or not defn["sensors"]:
